@@ -64,7 +64,7 @@ theorem no_get_while_selecting (c : SCfg) (s : SState) (t : Nat) (ask : Option N
     (h : s.phase = .selecting) :
     (stepL c s (.get1 t ask ns nc)).dis.any (fun d => d.cls == .I) = true := by
   simp only [stepL]
-  split <;> split <;> split <;>
+  split <;> split <;> split <;> split <;>
     simp [SState.note, SState.inPhase, h, List.any_append]
 
 /-! ## The full statement is false of the code (finding F-C07) -/
